@@ -71,10 +71,39 @@ Proof. exact num11_accuracy. Qed.
 Theorem C11_num11_exact : forall n d u, 0 < d -> 2 * Z.abs (n * 10 ^ 11 - u * d) < d -> num11 n d = u.
 Proof. exact num11_exact. Qed.
 
-(** ... in particular the double nearest to it when |value| < 2^16 (half an ulp is then at most 2^-38 < 5e-12);
-    DESIGN states the bound as 2^52 * 1e-11 = 45035.99 < 2^16 *)
-Theorem C11_num11_exact_double : forall n d u, 0 < d -> Z.abs (n * 10 ^ 11 - u * d) * 2 ^ 38 <= 10 ^ 11 * d -> num11 n d = u.
+(** ... in particular the double nearest to it when |value| < 2^16 (half an ulp is then at most 2^-38 < 5e-12; DESIGN states
+    the bound as 2^52 * 1e-11 = 45035.99 < 2^16).  PARTIAL: binary64 rounding itself is not modelled -- "q is the double
+    nearest to u * 1e-11" enters as the distance bound |q - u * 1e-11| <= 2^-38, which IEEE-754 round-to-nearest guarantees
+    below 2^16; the check re-validates that premise on every generated value (oracle self-check in l1.expected). *)
+Theorem C11_num11_exact_double_partial : forall n d u, 0 < d -> Z.abs (n * 10 ^ 11 - u * d) * 2 ^ 38 <= 10 ^ 11 * d -> num11 n d = u.
 Proof. exact num11_exact_double. Qed.
+
+(** empty optional cells default as documented: fees to 0 (a crypto fee implies fiat_fee = crypto_fee * spot_price), the fiat
+    amounts to amount * spot_price (+ fee), crypto_out_with_fee to the sum, a transfer's spot price to 0; supplied values win *)
+Theorem C11_in_defaults : forall r a, mk_in r = Ok a ->
+  (ri_crypto_fee r = None -> i_crypto_fee a = 0) /\
+  (ri_crypto_fee r = None -> ri_fiat_fee r = None -> i_fiat_fee a = g 0) /\
+  (forall c, ri_crypto_fee r = Some c -> 0 < c -> i_fiat_fee a = dmul (g c) (g (ri_spot r))) /\
+  (ri_fiat_in_no_fee r = None -> i_fiat_in_no_fee a = dmul (g (ri_crypto_in r)) (g (ri_spot r))) /\
+  (forall v, ri_fiat_in_no_fee r = Some v -> i_fiat_in_no_fee a = g v) /\
+  (ri_fiat_in_with_fee r = None -> i_fiat_in_with_fee a = dadd (i_fiat_in_no_fee a) (i_fiat_fee a)) /\
+  (forall v, ri_fiat_in_with_fee r = Some v -> i_fiat_in_with_fee a = g v).
+Proof. exact in_defaults. Qed.
+
+Theorem C11_out_defaults : forall r a, mk_out r = Ok a ->
+  (ro_crypto_out_with_fee r = None -> o_crypto_out_with_fee a = ro_crypto_out_no_fee r + ro_crypto_fee r) /\
+  (forall v, ro_crypto_out_with_fee r = Some v -> o_crypto_out_with_fee a = v) /\
+  (ro_fiat_out_no_fee r = None -> o_fiat_out_no_fee a = dmul (g (ro_crypto_out_no_fee r)) (g (ro_spot r))) /\
+  (forall v, ro_fiat_out_no_fee r = Some v -> o_fiat_out_no_fee a = g v) /\
+  (ro_fiat_fee r = None -> o_fiat_fee a = dmul (g (ro_crypto_fee r)) (g (ro_spot r))) /\
+  (forall v, ro_fiat_fee r = Some v -> o_fiat_fee a = g v) /\
+  o_fiat_out_with_fee a = dadd (o_fiat_out_no_fee a) (o_fiat_fee a).
+Proof. exact out_defaults. Qed.
+
+Theorem C11_intra_defaults : forall r a, mk_intra r = Ok a ->
+  (rx_spot r = None -> x_spot a = 0) /\ (forall v, rx_spot r = Some v -> x_spot a = v) /\
+  x_fiat_fee a = dmul (g (rx_crypto_sent r - rx_crypto_received r)) (g (x_spot a)).
+Proof. exact intra_defaults. Qed.
 
 (** crypto fee on an acquisition: the acquisition (same row, instant, account, type, amount; crypto fee 0) plus an
     artificial fee-only disposal at the same instant and account; coin flow crypto_in - fee; cost basis unchanged *)
@@ -143,7 +172,10 @@ Print Assumptions C11_rows_once_in_order.
 Print Assumptions C11_format_precision.
 Print Assumptions C11_num11_accuracy.
 Print Assumptions C11_num11_exact.
-Print Assumptions C11_num11_exact_double.
+Print Assumptions C11_num11_exact_double_partial.
+Print Assumptions C11_in_defaults.
+Print Assumptions C11_out_defaults.
+Print Assumptions C11_intra_defaults.
 Print Assumptions C11_crypto_fee_split.
 Print Assumptions C11_crypto_fee_cost_basis.
 Print Assumptions C11_fee_disposal_constructs.
